@@ -11,7 +11,7 @@ def conn_string(hosts, srv=False):
     if srv: return 'mongodb+srv://' + hosts[0] + '/?ssl=true'
     return 'mongodb://' + ','.join(hosts) + '/?ssl=true&authSource=admin&replicaSet=atlas-abc-shard-0'
 
-def run_cli(world, flags=None, key_via='flags', window=None, out_name='out.log', extra_env=None, project='P1x', cluster='C1x'):
+def run_cli(world, flags=None, key_via='flags', window=None, out_name='out.log', extra_env=None, project='P1x', cluster='C1x', pre_outs=None, extra_args=None):
     """world: dict for the proxy (see zz_verif_proxy.go). Returns dict with rc, stdout, stderr, requests, tmp listing, outputs."""
     d = tempfile.mkdtemp(prefix='atlas_')
     try:
@@ -24,6 +24,8 @@ def run_cli(world, flags=None, key_via='flags', window=None, out_name='out.log',
             port = open(os.path.join(d, 'port')).read()
             tmp = os.path.join(d, 'tmp'); os.mkdir(tmp)
             work = os.path.join(d, 'work'); os.mkdir(work)
+            for name, data in (pre_outs or {}).items():
+                open(os.path.join(work, name), 'wb').write(data)   # files left by an earlier run with the same --outputFile
             env = {'PATH': '/usr/bin:/bin', 'HTTPS_PROXY': 'http://127.0.0.1:' + port, 'SSL_CERT_FILE': os.path.join(d, 'ca.pem'), 'TMPDIR': tmp, 'HOME': d}
             argv = [CLI, 'redact', '--atlasProjectId', project, '--atlasClusterName', cluster, '-o', out_name] + (flags or [])
             if key_via in ('flags', 'mixed'): argv += ['--atlasPublicKey', PUB]
@@ -32,6 +34,7 @@ def run_cli(world, flags=None, key_via='flags', window=None, out_name='out.log',
             if key_via == 'env': env['ATLAS_PUBLIC_KEY'] = PUB
             if window: argv += ['-s', str(window[0]), '-e', str(window[1])]
             if extra_env: env.update(extra_env)
+            if extra_args: argv += extra_args
             t0 = int(time.time())
             p = subprocess.run(argv, env=env, cwd=work, stdin=subprocess.DEVNULL, capture_output=True, timeout=120)
             t1 = int(time.time())
